@@ -21,6 +21,15 @@ partial def wOf : Sexp → Option W
             let v ← wOf v
             pure (k, v)
         | _ => Option.none).map .dict
+  | Sexp.node (Sexp.atom "DC" :: Sexp.atom n :: kvs) => do      -- an instance of dict SUBCLASS number n >= 1 (harness: WAITER_DICTS): `W.dict` has no class, the harness checks that the class is kept
+      let n ← n.toNat?
+      if n = 0 then Option.none else
+      (kvs.mapM fun kv => match kv with
+        | Sexp.node [Sexp.atom k, v] => do
+            let k ← hexDecode k
+            let v ← wOf v
+            pure (k, v)
+        | _ => Option.none).map .dict
   | _ => Option.none
 
 def eventOf : Val → Option (Nat × Val)
